@@ -78,6 +78,20 @@ CLAIMS['C26'] = dict(engine='rtc (E3)', category='exploration',
          'dx is the vacancy displacement; the pruned omega1 list is exactly the classes touching the thermodynamic range.',
     note='Catalogue crystals, Nthermo 1..2.')
 
+CLAIMS['C31'] = dict(engine='rtc (E3)', category='exploration',
+    technique='run-time postcondition of makeclusters against brute-force enumeration; closure contracts on TS/vacancy clusters; Cluster identity laws (structural proof in C36)',
+    text='Bounded: catalogue crystals, first shells, order <= 3, with and without excluded species: generated cluster sets are exactly the site sets within the cutoff, each once, grouped in complete disjoint orbits; '
+         'TS and vacancy cluster sets are closed under symmetry (and reversal); equality/hash are invariant under translation and reordering.',
+    note='Catalogue, cutoffs and order are the bound.')
+CLAIMS['C32'] = dict(engine='rtc (E3)', category='exploration',
+    technique='run-time contract shared by the four evaluators against a brute-force cluster sum, exhaustive over occupations of small supercells (thorough)',
+    text='Bounded: on the sampler catalogue, for every (thorough) / sampled (quick) mobile occupation: cluster counter, index-matrix expansion, interaction-list evaluator and sampler energy equal the brute-force sum to 1e-10.',
+    note='Sampler catalogue is the bound.')
+CLAIMS['C34'] = dict(engine='rtc (E3)', category='exploration',
+    technique='run-time postcondition of MonteCarloSampler.transitions (detailed balance, reverse transition reported), exhaustive over occupations of small supercells (thorough)',
+    text='Bounded: for every occupation and every reported transition the final configuration reports the reverse transition with opposite displacement and Q - Q_rev = E_final - E_initial (1e-9), with KRA values, TS clusters, spectators, and a vacancy.',
+    note='Sampler catalogue is the bound.')
+
 NOT_APPLICABLE = {
     'C01': 'no contract within reach: the postcondition "equals the infinite-dilution limit of the exact Markov chain, to integration accuracy" needs an independent infinite-lattice solver as oracle (differential testing, a different technique) and no SMT/CAS obligation expresses a quadrature error; the discrete mechanisms it rests on are claimed in C24-C26, its invariances in C04, its sum rules in C06',
     'C05': 'a 2-safety statement about the Loewner order of two outputs (Rayleigh monotonicity): a variational theorem of detailed balance, not an invariant of any loop or a postcondition of one call; its only executable form is a numeric comparison of two runs (testing, not contract checking)',
